@@ -38,31 +38,38 @@ class StrRec(wf.JsonRecord):
 # ------------------------------------------------------------------------------------------------
 # codecs: how an "atom" (JSON-able descriptor used in op tuples) becomes the item handed to the API
 # ------------------------------------------------------------------------------------------------
+SUB = "\u00a7sub"          # atom standing for an instance of a str subclass with the text "sub"
+
+
+class Sub(str):
+    """a line that is a str, but not exactly a str (an enum.StrEnum member, a str carrying an attribute)"""
+
+
 class PlainCodec:
     """plain line files: items are the strings themselves"""
     record = False
-    header = []
+    header = ["class Sub(str): pass"]
 
     def value(self, atom):
-        return atom
+        return Sub("sub") if atom == SUB else atom
 
     def src_text(self, atom):
         return atom
 
     def new_texts(self, value):
-        return (value,)
+        return (str(value),)
 
     def src_texts(self, atom):
         return (atom,)
 
     def same(self, got, exp):
-        return type(got) is str and got == exp
+        return isinstance(got, str) and got == exp
 
     def ctor(self, cls, path):
         return cls(path)
 
     def lit(self, atom):
-        return repr(atom)
+        return "Sub('sub')" if atom == SUB else repr(atom)
 
     def ctor_lit(self, clsname, pathlit):
         return "%s(%s)" % (clsname, pathlit)
@@ -246,6 +253,10 @@ class LineFileSpec(Spec):
         ops = []
         for s in self.new_atoms:
             ops.append(("append", s))
+        if not self.codec.record:
+            ops.append(("append", SUB))         # a str subclass instance as the new line
+            if n:
+                ops.append(("set", 0, SUB))
         ops.append(("pop",))
         ops.append(("reverse",))
         for s in self.remove_atoms:
